@@ -117,7 +117,29 @@ def run_path(ex: Exec, ct: Contract, fi: FuncInfo) -> str:
         if not ctx.trail:
             ctx.cover(f"cover:{q}:pre-sat", line=fi.lineno)
         try:
-            ex.exec_block(strip_docstring(fi.node.body))
+            body = strip_docstring(fi.node.body)
+            start = ct.ghost.get("start_at")
+            if start:
+                # suffix verification: skip the statements before the first top-level statement whose
+                # source starts with the given text; locals named in locals_ are unconstrained inputs
+                import ast as _ast
+
+                idx = next((i for i, st in enumerate(body) if (_ast.get_source_segment(fi.module.source, st) or "").lstrip().startswith(start)), None)
+                if idx is None:
+                    raise Unsupported(f"start_at statement {start!r} not found")
+                body = body[idx:]
+                for lname, lty in ct.locals_.items():
+                    v = ctx.fresh(lty, "l_" + lname)
+                    ctx.locals[lname] = v
+                    ex.params_entry[lname] = v
+                    ex.entry_frame.params[lname] = v
+                ex.spec_mode = True
+                try:
+                    for k, e in ct.ghost.get("start_requires", {}).items():
+                        ctx.assume(ex.truth(ex.eval(parse_expr(e))))
+                finally:
+                    ex.spec_mode = False
+            ex.exec_block(body)
             result = mk_none()
         except _Return as r:
             result = r.val if r.val is not None else mk_none()
@@ -208,7 +230,7 @@ def check_exceptional_exit(ex: Exec, ct: Contract, fi: FuncInfo, exc):
     finally:
         ex.spec_mode = False
         ctx.ghost.pop("raised", None)
-    ctx.cover(f"cover:{q}:raise-{match}", line=fi.lineno)
+    # no reachability demand on exceptional exits: defensive raises may be unreachable under the invariant
 
 
 def check_frame(ex: Exec, ct: Contract, fi: FuncInfo):
